@@ -19,7 +19,7 @@ from vlib.drivers import asgi as A
 from vlib.drivers import wsgi as W
 from vlib.models import c03_stack as M
 
-LEVEL = 'exploration'
+LEVEL = 'fault_enumeration'
 SHARDS = {'quick': 4, 'thorough': 16}
 BUDGET = {'quick': 15, 'thorough': 150}
 
